@@ -272,14 +272,17 @@ def hkdf_rows(ctx: Ctx):
         for il in ([0, 1, 32, 64, 65, 300] if quick else lens):
             salt, ikm = rng.randbytes(sl), rng.randbytes(il)
             rec.g = []
-            out = mr.hkdf_extract(salt, ikm)
+            out = mr.hkdf_extract(bytearray(salt), bytearray(ikm)) if (sl + il) % 3 == 0 else mr.hkdf_extract(salt, ikm)
             rows.append({"op": "ext", "M": {"kind": "graph", "g": rec.g}, "salt": list(salt), "ikm": list(ikm),
                          "r": list(out)})
     for L in [0, 1, 31, 32, 33, 42, 48, 82, 8128, 8129, 8159, 8160] + ([] if quick else list(range(100, 8160, 403))):
         for il in (0, 1, 64, 300):
             prk, info = rng.randbytes(32), rng.randbytes(il)
             rec.g = []
-            raised, out = _call(lambda: mr.hkdf_expand(prk, info, L))
+            # the helpers are typed Union[bytes, bytearray]: one case in three hands over bytearrays
+            as_ba = (L + il) % 3 == 0
+            prk_a, info_a = (bytearray(prk), bytearray(info)) if as_ba else (prk, info)
+            raised, out = _call(lambda: mr.hkdf_expand(prk_a, info_a, L))
             rows.append({"op": "exp", "M": {"kind": "graph", "g": rec.g}, "prk": list(prk), "info": list(info),
                          "L": L, "r": list(out) if out is not None else "EXC:raised"})
     return rows
